@@ -876,3 +876,90 @@ func constOf(o types.Object) int64 {
 	}
 	return -1
 }
+
+// poolOp recognises a call that takes a value out of a package-level sync.Pool or gives one back, directly or through
+// a wrapper function of the module: a function all of whose returns hand back the (asserted) result of Get on a
+// global pool is a getter; one that passes a parameter to Put of a global pool is a putter. It returns the kind
+// ("get"/"put"), the pool variable and, for a put, the value given back.
+func poolOp(ci ssa.CallInstruction) (kind string, pool *ssa.Global, val ssa.Value) {
+	cc := ci.Common()
+	switch calleeID(ci) {
+	case "(*sync.Pool).Get":
+		if g, ok := cc.Args[0].(*ssa.Global); ok {
+			return "get", g, nil
+		}
+		return "", nil, nil
+	case "(*sync.Pool).Put":
+		if g, ok := cc.Args[0].(*ssa.Global); ok && len(cc.Args) == 2 {
+			return "put", g, cc.Args[1]
+		}
+		return "", nil, nil
+	}
+	f := cc.StaticCallee()
+	if f == nil || f.Pkg == nil || !strings.HasPrefix(f.Pkg.Pkg.Path(), modPath) || len(f.Blocks) == 0 || len(f.Blocks) > 3 {
+		return "", nil, nil
+	}
+	if g := poolGetter(f); g != nil {
+		return "get", g, nil
+	}
+	if g, idx := poolPutter(f); g != nil && idx < len(cc.Args) {
+		return "put", g, cc.Args[idx]
+	}
+	return "", nil, nil
+}
+
+func stripBoxing(v ssa.Value) ssa.Value {
+	for {
+		switch x := v.(type) {
+		case *ssa.TypeAssert:
+			v = x.X
+		case *ssa.ChangeType:
+			v = x.X
+		case *ssa.MakeInterface:
+			v = x.X
+		case *ssa.ChangeInterface:
+			v = x.X
+		default:
+			return v
+		}
+	}
+}
+
+// poolGetter: f only returns what it took out of one global pool.
+func poolGetter(f *ssa.Function) *ssa.Global {
+	if f.Signature.Results().Len() != 1 {
+		return nil
+	}
+	var pool *ssa.Global
+	for _, r := range returnsOf(f) {
+		call, ok := stripBoxing(r.Results[0]).(*ssa.Call)
+		if !ok || calleeID(call) != "(*sync.Pool).Get" {
+			return nil
+		}
+		g, ok := call.Call.Args[0].(*ssa.Global)
+		if !ok || (pool != nil && pool != g) {
+			return nil
+		}
+		pool = g
+	}
+	return pool
+}
+
+// poolPutter: f gives one of its parameters back to one global pool (and calls nothing else with it).
+func poolPutter(f *ssa.Function) (*ssa.Global, int) {
+	for _, ci := range callsIn(f) {
+		if calleeID(ci) != "(*sync.Pool).Put" || len(ci.Common().Args) != 2 {
+			continue
+		}
+		g, ok := ci.Common().Args[0].(*ssa.Global)
+		if !ok {
+			continue
+		}
+		if par, ok := stripBoxing(ci.Common().Args[1]).(*ssa.Parameter); ok {
+			if idx := paramIndex(f, par); idx >= 0 {
+				return g, idx
+			}
+		}
+	}
+	return nil, 0
+}
